@@ -259,6 +259,18 @@ def run(rep: Report, tier: str) -> None:
 	else:
 		is_out = lambda e: isinstance(e, ast.Call) and unparse(e.func) == 'self.output_filepath' and len(e.args) == 1 and isinstance(e.args[0], ast.Name)
 		rc.check(all(is_out(e) for e in reads) and all(is_out(e) for e in writes), 'same-path', tl.where, f'header is read from {[unparse(e) for e in reads]} but the output is written to {[unparse(e) for e in writes]}: both must be self.output_filepath(<module path>)')
+	# the loader resolves a relative path against several base directories (env paths) while Writer resolves it against the cwd only: the two sites
+	# address the same file for every configuration only if Runner.output_filepath hands out an absolute path
+	fl = idx.mod('rogw/tranp/app/loader.py')
+	rep.consulted(fl.relpath)
+	rs = fl.cls('FileLoader').method('__resolve_filepath') if 'FileLoader' in fl.classes else None
+	multi_base = rs is not None and any(isinstance(n, (ast.For, ast.comprehension)) and 'env_paths' in unparse(n.iter) for n in ast.walk(rs.node))
+	of = tr.func('Runner.output_filepath')
+	orets = [n.value for n in nodes(FI(of), ast.Return) if n.value is not None]
+	if multi_base and orets:
+		rc.check(all(isinstance(v, ast.Call) and attr_chain(v.func) in ('os.path.abspath', 'os.path.realpath') for v in orets), 'output-path-absolute', of.where, f'Runner.output_filepath returns `{unparse(orets[0])[:100]}`: the header is read through FileLoader (relative paths are searched under every env path, e.g. the tranp root) but written through Writer (relative to the cwd); unless the path is made absolute the old header can be read from another directory than the one written to, and a non-forced run skips a module whose output does not exist')
+	else:
+		rc.skip('output-path-absolute', of.where, 'FileLoader no longer searches several base directories (or output_filepath has no return value)')
 	parsed = [c for c in calls(tlx, 'MetaHeader.try_from_content') if c.args and has_call(c.args[0], 'sources.load')]
 	if parsed:
 		rc.ok('read-existing', tl.where)
